@@ -48,7 +48,7 @@ Deser(ty, chunk, c) ==
 ValueMatches(ty, lib, abs) ==
   IF ~IsPointTy(ty) THEN lib = abs
   ELSE IF IsProjTy(ty) THEN GRep(GroupOf(ty), lib, abs)
-  ELSE AffRep(lib, abs) /\ AffCanon(GroupOf(ty), lib)
+  ELSE AffRep(lib, abs)
 
 (* StStep(st, e) = <<accepted, st'>> *)
 StStep(st, e) ==
